@@ -125,3 +125,31 @@ pub mod time {
         }
     }
 }
+
+pub mod hybrid_clock {
+    //! what `SystemHybridClock::now()` reads under cfg(kolibrie_verif) when a simulation installed a script:
+    //! numbered readings, a fixed step per reading, and one optional one-hour jump at reading `jump_at`.
+    use std::cell::Cell;
+    use std::time::{Duration, Instant};
+    thread_local! {
+        static ON: Cell<bool> = const { Cell::new(false) };
+        static BASE: Cell<Option<Instant>> = const { Cell::new(None) };
+        static NANOS: Cell<u64> = const { Cell::new(0) };
+        static STEP: Cell<u64> = const { Cell::new(0) };
+        static READS: Cell<u64> = const { Cell::new(0) };
+        static JUMP_AT: Cell<u64> = const { Cell::new(0) };
+        static JUMPED: Cell<bool> = const { Cell::new(false) };
+    }
+    pub fn install(step_ns: u64, jump_at: u64) { ON.with(|c| c.set(true)); BASE.with(|b| if b.get().is_none() { b.set(Some(Instant::now())) }); NANOS.with(|c| c.set(0)); STEP.with(|c| c.set(step_ns)); READS.with(|c| c.set(0)); JUMP_AT.with(|c| c.set(jump_at)); JUMPED.with(|c| c.set(false)); }
+    pub fn uninstall() { ON.with(|c| c.set(false)); }
+    pub fn reads() -> u64 { READS.with(|c| c.get()) }
+    pub fn jumped() -> bool { JUMPED.with(|c| c.get()) }
+    pub fn elapsed_ns() -> u64 { NANOS.with(|c| c.get()) }
+    pub fn now() -> Option<Instant> {
+        if !ON.with(|c| c.get()) { return None; }
+        let r = READS.with(|c| { c.set(c.get() + 1); c.get() });
+        if r == JUMP_AT.with(|c| c.get()) { NANOS.with(|c| c.set(c.get() + 3_600_000_000_000)); JUMPED.with(|c| c.set(true)); }
+        let n = NANOS.with(|c| { let v = c.get(); c.set(v + STEP.with(|s| s.get())); v });
+        Some(BASE.with(|b| b.get().unwrap()) + Duration::from_nanos(n))
+    }
+}
